@@ -287,6 +287,13 @@ def handleCap (ops : BufOps β) (cfg : Cfg) (host : Bytes) (strm : Nat) (readRc 
   let d := doOutput ops cfg host strm readRc s.buf rc vis (s.weof && decide (vis.length = s.pipe.length))
   (d.ret, { s with buf := d.buf, pipe := s.pipe.drop d.took, closed := decide (d.ret ≤ 0) }, d.rc, d.ems)
 
+/-- the handler when its read(2) FAILS with an error other than EAGAIN / EINTR (`_do_output`:
+    `err ("%p: %S: read: %m\n", t->host); return (-1);`): one diagnostic on pdsh's stderr (its text names the
+    program, the local host and strerror: the model says `diag`), nothing is consumed, what the buffer holds
+    stays there for `_flush_output`, and the handler closes the descriptor -/
+def handleFail (s : Stream β) (rc : Int) : Int × Stream β × Int × List Em :=
+  (-1, { s with closed := true }, rc, [diag])
+
 /-- the loop after the remote side has closed when every read is limited to `cap` bytes: handler calls
     (`sstep .. (.call cap)` each) until one returns <= 0; (number of calls, last return value, ...) -/
 def drainCap (ops : BufOps β) (cfg : Cfg) (host : Bytes) (strm : Nat) (readRc : Bool) (cap : Option Nat) :
